@@ -444,6 +444,35 @@ def opNestedEncode (st : State) (j : Json) : Except String Json := do
       | .error _ => Json.mkObj [("err", "apply")]
     pure (Json.mkObj [("ok", toHex body), ("after", after)])
 
+def eventJson : Event → Json
+  | .death v k t => Json.arr #["death", (Json.num (JsonNumber.fromInt v)), Json.num (JsonNumber.fromInt k), Json.num (JsonNumber.fromInt t)]
+  | .achievement a i => Json.arr #["achievement", Json.num (JsonNumber.fromInt a), Json.num (JsonNumber.fromInt i)]
+  | .battleEnd t r => Json.arr #["battleEnd", Json.num (JsonNumber.fromInt t), Json.num (JsonNumber.fromInt r)]
+  | .player i => Json.arr #["player", Json.num (JsonNumber.fromInt i)]
+  | .arena i => Json.arr #["arena", Json.num (JsonNumber.fromInt i)]
+  | .map n => Json.arr #["map", toHex n]
+  | _ => Json.arr #["other"]
+
+/-- `summary.fromStream`: the model decodes the stream with the loaded definitions, extracts the
+controller's events from its own invocation log and folds them (`ReplayModel.summaryOfStream`) -/
+def opSummaryFromStream (st : State) (j : Json) : Except String Json := do
+  let id ← j.getObjValAs? String "defs"
+  let defs ← match st.defs.get? id with
+    | some d => pure d
+    | none => throw s!"unknown defs {id}"
+  let dialect ← dialectOf (← j.getObjValAs? String "dialect")
+  let strict ← j.getObjValAs? Bool "strict"
+  let stream ← getHex j "stream"
+  let r := play jsonOkImpl { defs := defs, masks := st.masks, dialect := dialect, reg := summaryRegistry } strict {} stream
+  let evs := eventsOfLog r.world.log ++ eventsOfWorld r.world
+  let s := summaryOfStream jsonOkImpl defs st.masks dialect strict stream
+  pure (Json.mkObj (endJson r.ending ++ [("events", Json.arr (evs.map eventJson).toArray),
+    ("deaths", Json.arr (s.deaths.map fun d => Json.arr #[Json.num (JsonNumber.fromInt d.1), Json.num (JsonNumber.fromInt d.2.1), Json.num (JsonNumber.fromInt d.2.2)]).toArray),
+    ("playerId", match s.playerId with | some i => Json.num (JsonNumber.fromInt i) | none => Json.null),
+    ("arenaId", match s.arenaId with | some i => Json.num (JsonNumber.fromInt i) | none => Json.null),
+    ("map", match s.map with | some n => (toHex n : Json) | none => Json.null),
+    ("failed", r.failed.length)]))
+
 def pureOp (st : State) (r : Except String Json) : Except String (State × Json) := do
   pure (st, ← r)
 
@@ -467,6 +496,7 @@ def dispatch (st : State) (op : String) (j : Json) : Except String (State × Jso
   | "codec.writeArgs" => pureOp st (opCodecWriteArgs j)
   | "nested.encode" => pureOp st (opNestedEncode st j)
   | "getinfo" => pureOp st (opGetInfo st j)
+  | "summary.fromStream" => pureOp st (opSummaryFromStream st j)
   | "bits.req" => pureOp st (opBitsReq j)
   | "bits.table" => pureOp st (opBitsTable j)
   | "bits.read" => pureOp st (opBitsRead j)
